@@ -287,6 +287,40 @@ pub fn replay_trunc(args: &Args) {
                 }
             }
         }
+        // ... and a threshold BELOW every positive probability (0, -1) removes nothing, however small the probability is
+        // (NoOpBelowMin): the profile with the vanishing actions keeps its support and its probabilities (up to the rounding of
+        // a renormalisation by a total that is one)
+        if has_zero && h.is_finite() && h <= 0.0 {
+            let tiny = 2f64.powi(-70);
+            let mut named: [Vec<(String, Vec<(String, f64)>)>; 2] = named_from(&w, [0, 0]);
+            for side in named.iter_mut() {
+                for (_, acts) in side.iter_mut() {
+                    for (_, x) in acts.iter_mut() {
+                        if *x == 0.0 {
+                            *x = tiny;
+                        }
+                    }
+                }
+            }
+            let tree2 = strat_game([&nacts[0], &nacts[1]], [0, 0]);
+            let res2 = util::catch(move || {
+                let game = tree::build(&tree2).expect("carrier game");
+                let mut strat = game.from_named(named).expect("grid profile with tiny weights");
+                let before = strat.verif_dense();
+                strat.truncate(h);
+                (before, strat.verif_dense())
+            });
+            match res2 {
+                Err(msg) => bad.push(json!({"what": "panic (tiny weights, threshold below every probability)", "observed": msg})),
+                Ok((before, after)) => {
+                    let same = (0..2).all(|pl| before[pl].len() == after[pl].len() && before[pl].iter().zip(after[pl].iter()).all(|(a, b)| util::close(*a, *b, 1e-12) && ((*a > 0.0) == (*b > 0.0))));
+                    if !same {
+                        bad.push(json!({"what": "a threshold below every positive probability changed a profile with actions of vanishing probability (2^-70)",
+                            "class": "tiny-kept", "threshold": h, "before": before, "after": after}));
+                    }
+                }
+            }
+        }
         let nontrivial = exp.iter().any(|e| e["fixed"].as_bool().unwrap());
         if bad.is_empty() {
             out.line(&json!({"id": n, "status": "ok", "nontrivial": nontrivial}));
